@@ -5,6 +5,7 @@ import (
 	"fmt"
 	"net"
 	"strings"
+	"sync/atomic"
 	"time"
 
 	"verifharness/coqfmt"
@@ -40,6 +41,8 @@ type ExObs struct {
 	LTot     float64            `json:"listener_total"`
 	DAct     float64            `json:"dialer_active"`
 	DTot     float64            `json:"dialer_total"`
+	UpOpen   int                `json:"upstream_open"` // connections a scripted upstream accepted from the proxy that are still open at quiescence (cases that watch them)
+	Handler  bool               `json:"handler"`       // driven through martian's http.Handler on net/http's server
 	Shutdown bool               `json:"shutdown"` // the case shut the proxy down while the exchange was in progress
 	Retried  bool               `json:"retried"`
 	Err      string             `json:"err"` // harness-level problem (rig could not be driven as planned)
@@ -53,9 +56,9 @@ func (o *ExObs) Coq() string {
 		exs[i] = fmt.Sprintf("(mkex %s %s %d %s %s %d)", e.Val.Coq(), coqfmt.Str(e.Method), e.UpStatus, e.Feat.Coq(),
 			coqfmt.Bool(e.Seen), e.Client)
 	}
-	return fmt.Sprintf("{| o_exs := %s;\n   o_trace := %s;\n   o_closed := %s; o_check_end := %s;\n   o_inflight := %s;\n   o_total := %s;\n   o_lact := %s; o_dact := %s; o_harness_ok := %s; o_shutdown := %s |}",
+	return fmt.Sprintf("{| o_exs := %s;\n   o_trace := %s;\n   o_closed := %s; o_check_end := %s;\n   o_inflight := %s;\n   o_total := %s;\n   o_lact := %s; o_dact := %s; o_upopen := %s; o_harness_ok := %s; o_handler := %s; o_shutdown := %s |}",
 		coqfmt.List("ex", exs), CoqTrace(o.Trace), coqfmt.Bool(o.Closed), coqfmt.Bool(o.CheckEnd),
-		CoqGauge(o.InFlight), CoqGauge(o.Total), coqfmt.Z(int64(o.LAct)), coqfmt.Z(int64(o.DAct)), coqfmt.Bool(o.Err == ""), coqfmt.Bool(o.Shutdown))
+		CoqGauge(o.InFlight), CoqGauge(o.Total), coqfmt.Z(int64(o.LAct)), coqfmt.Z(int64(o.DAct)), coqfmt.Z(int64(o.UpOpen)), coqfmt.Bool(o.Err == ""), coqfmt.Bool(o.Handler), coqfmt.Bool(o.Shutdown))
 }
 
 // ExCase is a named way of driving the proxy through one leaf.
@@ -77,6 +80,28 @@ type Env struct {
 	conns []net.Conn
 	fail  string
 	pending *Options
+	upOpen  atomic.Int32 // see WatchedUpstream
+}
+
+// WatchedUpstream wraps the handler of a scripted upstream proxy / origin: the connections it accepted from the proxy
+// are counted until the proxy closes them (the handler must return only when its read side has seen the end).
+func (e *Env) WatchedUpstream(h func(c net.Conn, n int)) func(c net.Conn, n int) {
+	return func(c net.Conn, n int) {
+		e.upOpen.Add(1)
+		h(c, n)
+		// whatever the script did: wait for the proxy's side to end
+		c.SetReadDeadline(time.Now().Add(3 * time.Second))
+		buf := make([]byte, 512)
+		for {
+			if _, err := c.Read(buf); err != nil {
+				if ne, ok := err.(net.Error); !ok || !ne.Timeout() {
+					e.upOpen.Add(-1)
+				}
+				break
+			}
+		}
+		c.Close()
+	}
 }
 
 // Failf records a harness-level problem.
@@ -158,7 +183,7 @@ func RunExchangeCase(cs ExCase) *ExObs {
 }
 
 func runExchangeCaseOnce(cs ExCase) *ExObs {
-	o := &ExObs{Name: cs.Name, Leaf: cs.Leaf, Class: cs.Class}
+	o := &ExObs{Name: cs.Name, Leaf: cs.Leaf, Class: cs.Class, Handler: cs.Opt.Handler}
 	opt := cs.Opt
 	e := &Env{O: o}
 	defer func() {
@@ -206,6 +231,10 @@ func runExchangeCaseOnce(cs ExCase) *ExObs {
 	o.LTot = m.Sum(ns + "_listener_cx_total")
 	o.DAct = m.AbsSum(ns + "_dialer_cx_active")
 	o.DTot = m.Sum(ns + "_dialer_cx_total")
+	for w := time.Now().Add(time.Second); e.upOpen.Load() > 0 && time.Now().Before(w); {
+		time.Sleep(2 * time.Millisecond)
+	}
+	o.UpOpen = int(e.upOpen.Load())
 	e.Rig.Close()
 	// cases whose write outcome is decided by a race (client already gone or not):
 	// take it from the observed completion event (err set or not)
@@ -220,6 +249,9 @@ func runExchangeCaseOnce(cs ExCase) *ExObs {
 		}
 	}
 	o.Err = e.fail
+	if o.Handler {
+		o.CheckEnd = false
+	}
 	return o
 }
 
